@@ -663,6 +663,11 @@ class ScriptGen:
             D_then = set(D)
             n_then = 1 + t.draw(3, "nthen")
             then = self.gen_block(D_then, depth - 1 if F.nested_if else 0, n_then)
+            if isinstance(c, Var) and form[0] == "1" and c.name in self.assignable and t.chance(0.6, "flipflag"):
+                # "only the first time" idiom: the block clears the very variable it is guarded by; the
+                # condition must have been evaluated once, at entry
+                then.insert(t.draw(len(then) + 1, "flippos"),
+                            ("assign", c.name, None, Const(False) if t.chance(0.5) else Not(Var(c.name)), [], self.mode()))
             else_ = None
             if F.else_ and t.chance(0.5, "else"):
                 D_else = set(D)
